@@ -3,6 +3,31 @@
 import json, os
 V = '/verif'
 CLAIMED = {
+ 'C03': dict(
+   level='other', design='DESIGN.md §5 C03',
+   technique='static analysis: interprocedural effect enumeration + CFG cut by authority-guard edges (go/ssa), argument binding by canonical terms, table agreement with T-REG',
+   text='Every world-state effect (dependency mutator call or OutputTransfer literal, in every calling context) below each privileged entry point — resolved through the factory registrations — is shown to be cut on all CFG paths by the success edge of that function\'s authority guard with the right bindings (role constant of the table, sender account, Arguments[0]; caller == ESDTSCAddress; absent sender; caller == owner; caller in DNS set); the in-module role handler succeeds only under a matching list element. Structural necessary condition of the property for all inputs and role subsets; histories of role changes are not decided.',
+   note='Trusted: go/types + go/ssa; T-REG (spec/registry.json) restating the role/authority of each protocol name; A-presence.'),
+ 'C04': dict(
+   level='other', design='DESIGN.md §5 C04',
+   technique='static analysis: key/account provenance dataflow + CFG cut by the freeze/pause gate with argument binding; success-return classification of the gate; sibling agreement of pause lookup/store',
+   text='Every balance-class storage write below every non-exempt registered entry point is cut, in every calling context, by the success edge of the freeze/pause gate bound to the written account\'s address, the token-level key, the own pause handler, the entry held by that account and the ReturnCallAfterError flag; the gate succeeds only under the three stated conditions; pause lookup and toggle agree on account and key; one pause object serves all functions; freeze toggling never mutates Value.',
+   note='Trusted: go/types + go/ssa; T-EXEMPT (the five exempt protocol names of the statement); A-presence; flag byte tables are C20.'),
+ 'C05': dict(
+   level='other', design='DESIGN.md §5 C05',
+   technique='static analysis: CFG cut of the user-key write by the namespace/self-call/non-contract guards, storage-key provenance (append chains on constant prefixes), account provenance, who-may-call table over dependency mutators',
+   text='Decides the guards of the SaveKeyValue write (same key tested and written, Arguments[i]/Arguments[i+1] pairs), the exact acceptance condition of IsAllowedToSaveUnderKey (operator and constant), that every other storage write below the 23 entry points uses a key with one of the three constant protocol prefixes and a token taken from the call\'s own arguments, in an account that is sender/destination/destination-argument/system account, and that account-level mutators are called only by their owning function. The frame condition as an observed diff is not decided.',
+   note='Trusted: go/types + go/ssa; world state is reachable only through the interfaces of interface.go (no reflection/unsafe).'),
+ 'C09': dict(
+   level='other', design='DESIGN.md §5 C09',
+   technique='static analysis: two-edge CFG cut (exemption predicate false OR IsPayable true) over credit sites found by account provenance; return classification of the exemption predicate; guard cuts for metachain/self/length; field-write ownership',
+   text='Every credit of a non-sender account below the three transfer entry points is cut by the union of the must-verify-false edge (called with the function\'s own minimum argument count) and the IsPayable(address of the credited account)-true edge; the exemption predicate waives only under the four stated exemptions; metachain/self/length guards cut all sender-side effects; the payable handler is written only by constructor (refusing default) and SetPayableHandler.',
+   note='Trusted: go/types + go/ssa; the protocol argument layout of the three transfer functions; A-presence.'),
+ 'C17': dict(
+   level='proof', design='DESIGN.md §5 C17',
+   technique='static analysis: error-propagation dataflow — path exploration of the SSA CFG from every fallible call under the assumption err != nil, pruned only by tests of that value; induction over call depth',
+   text='For every dependency or carrier call site reachable from the 19 entry points, every return reachable with the error set returns a definitely non-nil error, and entry points never return an output together with an error; by induction over the call depth a failing dependency always surfaces as an error of ProcessBuiltinFunction — for every input and every fault position, which is the property (RetrieveValue and the pause lookup are excluded by the statement). All obligations are discharged, none assumed.',
+   note='Trusted: go/types + go/ssa; A-deps (a dependency signals failure by a non-nil error); no panic on the explored paths (C11).'),
  'C06': dict(
    level='other', design='DESIGN.md §5 C06',
    technique='static analysis: dominance/cut of guards over go/ssa CFGs with linear entailment (Fourier–Motzkin), value provenance classification of stores, path check "moved not copied", taint of decoded counts',
